@@ -1,40 +1,66 @@
-(** kvs/redis/redis.go BEFORE the fix of defect D7 (commit 100dccd): Create was a
-    single SETNX and answered ("", ErrExist) when the key was there: the empty
-    string is no version the storage ever issued (reference version 0).
+(** kvs/redis/redis.go BEFORE the fixes b59c3d7 (D8b) and 3538561 (D8a): the two
+    methods they changed, transcribed in the style of model/RedisKV.v.  Used only
+    by the [..._refuted] lemmas of C02 (proofs/C02_Legacy.v); run by the same
+    concurrent LTS (model/RedisConc.v).
 
-    Only Create differs from model/RedisKV.v here (the later fixes b59c3d7,
-    3538561, 5042a3c concern PutMany, CasByVersion and GetMany and are the
-    subject of C02 / the corpus).  Used only by legacy_redis_create_refuted.
-    No proofs here. *)
+    PutMany (D8b):
+        for _, r := range records {
+            if r.ExpiresAt != nil { mset = nil; break }
+            // no  r.Version = ulidutils.NewID()  here
+            mset = append(mset, rKey(r.Key)); mset = append(mset, rec2db(&r))
+        }
+    the payloads of the MSET branch carry the Version field the CALLER passed in.
+    The operation [PutMany] of the contract has no such field (it is ignored by
+    contract and fixed code alike), so the transcription takes the caller's
+    value as a parameter [cv]; 0 stands for the empty string.
+
+    CasByVersion (D8a): one WATCH/GET/MULTI/SET/EXEC attempt, no loop; when EXEC
+    is refused rdb.Watch returns redis.TxFailedErr, which is handed to the caller:
+    an error of none of the documented classes, [OOther].
+
+    No proofs in this file. *)
 From Coq Require Import List ZArith NArith Arith Bool.
 From GL Require Import spec.KV model.RedisSrv model.RedisKV.
 Import ListNotations.
 
-(* Version = NewID(); ok := SETNX ...; if !ok { return "", ErrExist }; return record.Version, nil *)
-Definition leg_rk_create (k : key) (v : value) (e : option Z) : prog :=
-  NewID (fun n =>
-    Cmd (fun now => SETNX (rKey k) (mkPl k v n e) (expiration e now)) (fun r =>
-      match r with
-      | RBool true => Ret (OVer n)
-      | _ => Ret (OExist 0)
-      end)).
+Fixpoint mset_args_legacy (cv : nat) (rs : list (key * value * option Z)) (acc : list (skey * payload))
+                          (ret : option (list (skey * payload)) -> prog) : prog :=
+  match rs with
+  | [] => ret (Some (rev acc))
+  | (k, v, e) :: t =>
+      match e with
+      | Some _ => ret None
+      | None => mset_args_legacy cv t ((rKey k, mkPl k v cv None) :: acc) ret
+      end
+  end.
 
-Definition leg_rk_prog (o : op) : prog :=
+Definition rk_putmany_legacy (cv : nat) (rs : list (key * value * option Z)) : prog :=
+  mset_args_legacy cv rs [] (fun a =>
+    match a with
+    | Some (x :: l) => Cmd (fun _ => MSET (x :: l)) (fun _ => Ret OOk)
+    | _ => puts_prog rs
+    end).
+
+Definition cas_legacy (k : key) (v : value) (e : option Z) (expected : nat) : prog :=
+  Cmd (fun _ => WATCH (rKey k)) (fun _ =>
+  Cmd (fun _ => GETC (rKey k)) (fun r =>
+    match r with
+    | RVal (Some p) =>
+        if Nat.eqb (p_ver p) expected then
+          NewID (fun n =>
+          Cmd (fun now => EXEC_SET (rKey k) (mkPl k v n e) (expiration e now)) (fun x =>
+          Cmd (fun _ => UNWATCH) (fun _ =>
+            match x with
+            | RTxFailed => Ret OOther            (* redis: transaction failed *)
+            | _ => Ret (ORec (k, v, n, e))
+            end)))
+        else Cmd (fun _ => UNWATCH) (fun _ => Ret OConflict)
+    | _ => Cmd (fun _ => UNWATCH) (fun _ => Ret ONotExist)
+    end)).
+
+Definition rk_prog_legacy (cv : nat) (o : op) : prog :=
   match o with
-  | Create k v e => leg_rk_create k v e
+  | PutMany rs => rk_putmany_legacy cv rs
+  | CasByVersion k v e expected => cas_legacy k v e expected
   | _ => rk_prog o
   end.
-
-Definition leg_rk_step (s : rstate) (now clk : Z) (o : op) : rstate * out :=
-  run_prog now clk 0 (leg_rk_prog o) s.
-
-Fixpoint leg_rk_run (s : rstate) (ops : list (Z * Z * op)) : list out * rstate :=
-  match ops with
-  | [] => ([], s)
-  | (now, clk, o) :: t =>
-      let '(s', x) := leg_rk_step s now clk o in
-      let '(xs, sf) := leg_rk_run s' t in (x :: xs, sf)
-  end.
-
-Definition leg_rk_run_sync (s : rstate) (ops : list (Z * op)) : list out * rstate :=
-  leg_rk_run s (map (fun no => (fst no, fst no, snd no)) ops).
